@@ -14,23 +14,6 @@ Proof. revert i; induction l as [|x l IH]; intros [|i]; simpl; auto. rewrite IH.
 Lemma upd_repeat {A} (x : A) n i : upd (repeat x n) i x = repeat x n.
 Proof. revert i; induction n as [|n IH]; intros [|i]; simpl; auto. rewrite IH. reflexivity. Qed.
 
-Lemma firstn_app_exact {A} (l r : list A) : firstn (length l) (l ++ r) = l.
-Proof. induction l as [|x l IH]; simpl; [destruct r; reflexivity|]. rewrite IH. reflexivity. Qed.
-
-Lemma firstn_app_le {A} (l r : list A) i : i <= length l -> firstn i (l ++ r) = firstn i l.
-Proof.
-  intro H. rewrite firstn_app. replace (i - length l) with 0 by lia. simpl. apply app_nil_r.
-Qed.
-
-Lemma remove_shared_app (view rest : list nat) i :
-  i < length view ->
-  remove_shared (view ++ rest) (length view) i
-  = remove_nth i view ++ skipn (length view - 1) (view ++ rest).
-Proof.
-  intro H. unfold remove_shared, remove_nth.
-  rewrite firstn_app_exact, firstn_app_le by lia. rewrite app_assoc. reflexivity.
-Qed.
-
 Lemma release_zeros n t :
   t < n -> release (upd (zeros n) t (nth t (zeros n) 0 + 1)%Z) t = zeros n.
 Proof.
@@ -39,17 +22,20 @@ Proof.
   simpl. rewrite upd_upd. apply upd_repeat.
 Qed.
 
-Lemma forall_remove_nth {A} (P : A -> Prop) i (l : list A) : Forall P l -> Forall P (remove_nth i l).
+Lemma forall_without (P : nat -> Prop) t (l : list nat) : Forall P l -> Forall P (without t l).
 Proof.
   intro H. apply Forall_forall. intros x Hx. apply (proj1 (Forall_forall P l) H).
-  apply (remove_nth_in _ _ _ Hx).
+  apply without_in in Hx. exact (proj1 Hx).
 Qed.
 
 (** * Single-goroutine states *)
 
-Definition solo_state (h : Z) (arr : list nat) (tn : list Z) (idx : list nat)
-           (vlen retry : nat) (p : pc) (log : list obs) : state :=
-  mkState arr tn idx [mkG h vlen retry p] log.
+Definition solo_state (h : Z) (arr : list nat) (tn : list Z) (own : option (list nat))
+           (retry : nat) (p : pc) (log : list obs) : state :=
+  mkState arr tn [mkG h own retry p] log.
+
+Definition view_of (arr : list nat) (own : option (list nat)) : list nat :=
+  match own with Some l => l | None => arr end.
 
 Lemma run_g_unfold f c ts s g :
   run_g (S f) c ts s g =
@@ -59,147 +45,129 @@ Lemma run_g_unfold f c ts s g :
   end.
 Proof. reflexivity. Qed.
 
-Lemma run_g_at_done f c ts h arr tn idx vlen retry b log :
-  run_g f c ts (solo_state h arr tn idx vlen retry (PDone b) log) 0
-  = solo_state h arr tn idx vlen retry (PDone b) log.
+Lemma run_g_at_done f c ts h arr tn own retry b log :
+  run_g f c ts (solo_state h arr tn own retry (PDone b) log) 0
+  = solo_state h arr tn own retry (PDone b) log.
 Proof. destruct f; reflexivity. Qed.
 
-Lemma step_pick c ts h arr tn idx vlen retry log :
-  step c ts (solo_state h arr tn idx vlen retry PLoop log) (Pick 0) =
-  if vlen =? 0 then Some (solo_state h arr tn idx vlen retry (PDone false) log)
-  else if max_retry <? S retry then Some (solo_state h arr tn idx vlen (S retry) (PDone false) log)
-  else match scan c ts tn h (limit_of vlen) (firstn vlen arr) 0 with
-       | None => Some (solo_state h arr tn idx vlen (S retry) PSleep log)
-       | Some (t, i) =>
-           Some (solo_state h arr (upd tn t (nth t tn 0 + 1)%Z) (upd idx t i) vlen (S retry) (PReq t)
+Lemma step_pick c ts h arr tn own retry log :
+  step c ts (solo_state h arr tn own retry PLoop log) (Pick 0) =
+  let v := view_of arr own in
+  if length v =? 0 then Some (solo_state h arr tn own retry (PDone false) log)
+  else if max_retry <? S retry then Some (solo_state h arr tn own (S retry) (PDone false) log)
+  else match scan c ts tn h (limit_of (length v)) v 0 with
+       | None => Some (solo_state h arr tn own (S retry) PSleep log)
+       | Some (t, _) =>
+           Some (solo_state h arr (upd tn t (nth t tn 0 + 1)%Z) own (S retry) (PReq t)
                             (OReq h (task_peer ts t) :: log))
        end.
 Proof.
-  unfold step, solo_state, set_g.
-  cbn [ev_g s_gs s_arr s_tnum s_idx s_log length Nat.ltb Nat.leb negb nth g_pc g_vlen g_retry g_h upd].
-  destruct (vlen =? 0); [reflexivity|]. destruct (max_retry <? S retry); [reflexivity|].
-  destruct (scan c ts tn h (limit_of vlen) (firstn vlen arr) 0) as [[t i]|]; reflexivity.
+  unfold step, solo_state, set_g, view, view_of.
+  cbn [ev_g s_gs s_arr s_tnum s_log length Nat.ltb Nat.leb negb nth g_pc g_own g_retry g_h upd].
+  cbn zeta.
+  destruct (length (match own with Some l => l | None => arr end) =? 0); [reflexivity|].
+  destruct (max_retry <? S retry); [reflexivity|].
+  destruct (scan c ts tn h (limit_of (length (match own with Some l => l | None => arr end)))
+                 (match own with Some l => l | None => arr end) 0) as [[t i]|]; reflexivity.
 Qed.
 
-Lemma step_sleep c ts h arr tn idx vlen retry log :
-  step c ts (solo_state h arr tn idx vlen retry PSleep log) (Sleep 0)
-  = Some (solo_state h arr tn idx vlen retry PLoop log).
+Lemma step_sleep c ts h arr tn own retry log :
+  step c ts (solo_state h arr tn own retry PSleep log) (Sleep 0)
+  = Some (solo_state h arr tn own retry PLoop log).
 Proof. reflexivity. Qed.
 
-Lemma step_result c ts h arr tn idx vlen retry t log :
-  step c ts (solo_state h arr tn idx vlen retry (PReq t) log) (Result 0) =
-  if is_stall (c_beh c (task_peer ts t) h) then None else
-  match accepted (c_beh c (task_peer ts t) h) with
-  | Some o => Some (solo_state h arr tn idx vlen retry (POkRel t)
-                               (ODeliver (deliver_height h o) (task_peer ts t) :: log))
-  | None => Some (solo_state h arr tn idx vlen retry (PFailRel t) log)
-  end.
+Lemma step_result c ts h arr tn own retry t log :
+  step c ts (solo_state h arr tn own retry (PReq t) log) (Result 0) =
+  if accepted (c_beh c (task_peer ts t) h)
+  then Some (solo_state h arr tn own retry (POkRel t) (ODeliver h (task_peer ts t) :: log))
+  else Some (solo_state h arr tn own retry (PFailRel t) log).
 Proof.
   unfold step, solo_state, set_g.
-  cbn [ev_g s_gs s_arr s_tnum s_idx s_log length Nat.ltb Nat.leb negb nth g_pc g_vlen g_retry g_h upd].
-  destruct (is_stall (c_beh c (task_peer ts t) h)); [reflexivity|].
-  destruct (accepted (c_beh c (task_peer ts t) h)) as [[b|]|]; reflexivity.
+  cbn [ev_g s_gs s_arr s_tnum s_log length Nat.ltb Nat.leb negb nth g_pc g_own g_retry g_h upd].
+  destruct (accepted (c_beh c (task_peer ts t) h)); reflexivity.
 Qed.
 
-Lemma step_release_ok c ts h arr tn idx vlen retry t log :
-  step c ts (solo_state h arr tn idx vlen retry (POkRel t) log) (Release 0)
-  = Some (solo_state h arr (release tn t) idx vlen retry (PDone true) log).
+Lemma step_release_ok c ts h arr tn own retry t log :
+  step c ts (solo_state h arr tn own retry (POkRel t) log) (Release 0)
+  = Some (solo_state h arr (release tn t) own retry (PDone true) log).
 Proof. reflexivity. Qed.
 
-Lemma step_release_fail c ts h arr tn idx vlen retry t log :
-  step c ts (solo_state h arr tn idx vlen retry (PFailRel t) log) (Release 0)
-  = Some (solo_state h arr (release tn t) idx vlen retry (PRemove t) log).
+Lemma step_release_fail c ts h arr tn own retry t log :
+  step c ts (solo_state h arr tn own retry (PFailRel t) log) (Release 0)
+  = Some (solo_state h arr (release tn t) own retry (PRemove t) log).
 Proof. reflexivity. Qed.
 
-Lemma step_remove c ts h arr tn idx vlen retry t log :
-  step c ts (solo_state h arr tn idx vlen retry (PRemove t) log) (Remove 0) =
-  if vlen <? nth t idx 0 + 1 then Some (solo_state h arr tn idx vlen retry PLoop log)
-  else Some (solo_state h (remove_shared arr vlen (nth t idx 0)) tn idx (vlen - 1) retry PLoop log).
-Proof.
-  unfold step, solo_state, set_g.
-  cbn [ev_g s_gs s_arr s_tnum s_idx s_log length Nat.ltb Nat.leb negb nth g_pc g_vlen g_retry g_h upd].
-  destruct (vlen <? nth t idx 0 + 1); reflexivity.
-Qed.
+Lemma step_remove c ts h arr tn own retry t log :
+  step c ts (solo_state h arr tn own retry (PRemove t) log) (Remove 0)
+  = Some (solo_state h arr tn (Some (without t (view_of arr own))) retry PLoop log).
+Proof. reflexivity. Qed.
 
-Lemma step_sort c ts h arr tn idx vlen retry log :
-  step c ts (solo_state h arr tn idx vlen retry PStart log) (Sort 0)
-  = Some (solo_state h (sort_view ts arr vlen) tn idx vlen retry PLoop log).
+Lemma step_sort c ts h arr tn retry log :
+  step c ts (solo_state h arr tn None retry PStart log) (Sort 0)
+  = Some (solo_state h (sort_tasks ts arr) tn None retry PLoop log).
 Proof. reflexivity. Qed.
 
 (** * The simulation *)
 
-Lemma sim c ts n h : forall k fuel view rest idx retry log,
-  Forall (fun t => t < n) view -> stall_free c ts h view = true ->
-  length idx = n -> 51 - retry < k -> 4 * k <= fuel ->
-  let r := solo c ts n h k view retry in
-  exists arr' tn' idx' vlen' retry',
-    run_g fuel c ts (solo_state h (view ++ rest) (zeros n) idx (length view) retry PLoop log) 0
-    = solo_state h arr' tn' idx' vlen' retry' (PDone (snd r)) (rev (fst r) ++ log).
+Lemma sim c ts n h : forall k fuel arr own retry log,
+  Forall (fun t => t < n) (view_of arr own) -> 51 - retry < k -> 4 * k <= fuel ->
+  let r := solo c ts n h k (view_of arr own) retry in
+  exists tn' own' retry',
+    run_g fuel c ts (solo_state h arr (zeros n) own retry PLoop log) 0
+    = solo_state h arr tn' own' retry' (PDone (snd r)) (rev (fst r) ++ log).
 Proof.
-  induction k as [|k IH]; intros fuel view rest idx retry log Hview Hsf Hidx Hk Hfuel; [lia|].
+  induction k as [|k IH]; intros fuel arr own retry log Hview Hk Hfuel; [lia|].
   destruct fuel as [|[|[|[|f]]]]; try lia.
   cbn zeta. cbn [solo]. rewrite run_g_unfold.
-  cbn [solo_state s_gs nth next_event g_pc]. fold (solo_state h (view ++ rest) (zeros n) idx (length view) retry PLoop log).
-  rewrite step_pick.
+  cbn [solo_state s_gs nth next_event g_pc]. fold (solo_state h arr (zeros n) own retry PLoop log).
+  rewrite step_pick. cbn zeta.
+  set (view := view_of arr own) in *.
   destruct view as [|x view'] eqn:Hv.
   { cbn [length Nat.eqb]. rewrite run_g_at_done. repeat eexists. }
   rewrite <- Hv in *.
   assert (Hpos : (length view =? 0) = false) by (rewrite Hv; reflexivity). rewrite Hpos. clear Hv Hpos.
   destruct (max_retry <? S retry) eqn:Hr.
   { rewrite run_g_at_done. repeat eexists. }
-  rewrite firstn_app_exact.
   destruct (scan c ts (zeros n) h (limit_of (length view)) view 0) as [[t i]|] eqn:Hs.
   - destruct (scan_some _ _ _ _ _ _ _ _ _ Hs) as [_ [Hi [Hnth _]]]. rewrite Nat.sub_0_r in *.
     assert (Ht : t < n).
     { rewrite <- Hnth. apply (proj1 (Forall_forall _ _) Hview). apply nth_In. exact Hi. }
     rewrite run_g_unfold. cbn [solo_state s_gs nth next_event g_pc].
     match goal with |- context [step c ts ?s (Result 0)] =>
-      change s with (solo_state h (view ++ rest) (upd (zeros n) t (nth t (zeros n) 0 + 1)%Z) (upd idx t i)
-                                (length view) (S retry) (PReq t) (OReq h (task_peer ts t) :: log)) end.
+      change s with (solo_state h arr (upd (zeros n) t (nth t (zeros n) 0 + 1)%Z) own
+                                (S retry) (PReq t) (OReq h (task_peer ts t) :: log)) end.
     rewrite step_result.
-    assert (Hns : is_stall (c_beh c (task_peer ts t) h) = false).
-    { unfold stall_free in Hsf. apply negb_true_iff.
-      apply (proj1 (forallb_forall _ _) Hsf t). rewrite <- Hnth. apply nth_In. exact Hi. }
-    rewrite Hns.
-    destruct (accepted (c_beh c (task_peer ts t) h)) as [a|] eqn:Ha.
+    destruct (accepted (c_beh c (task_peer ts t) h)) eqn:Ha.
     + rewrite run_g_unfold. cbn [solo_state s_gs nth next_event g_pc].
       match goal with |- context [step c ts ?s (Release 0)] =>
-        change s with (solo_state h (view ++ rest) (upd (zeros n) t (nth t (zeros n) 0 + 1)%Z) (upd idx t i)
-                                  (length view) (S retry) (POkRel t)
-                                  (ODeliver (deliver_height h a) (task_peer ts t) :: OReq h (task_peer ts t) :: log)) end.
+        change s with (solo_state h arr (upd (zeros n) t (nth t (zeros n) 0 + 1)%Z) own
+                                  (S retry) (POkRel t)
+                                  (ODeliver h (task_peer ts t) :: OReq h (task_peer ts t) :: log)) end.
       rewrite step_release_ok. rewrite run_g_at_done. cbn [fst snd rev app].
       repeat eexists.
     + rewrite run_g_unfold. cbn [solo_state s_gs nth next_event g_pc].
       match goal with |- context [step c ts ?s (Release 0)] =>
-        change s with (solo_state h (view ++ rest) (upd (zeros n) t (nth t (zeros n) 0 + 1)%Z) (upd idx t i)
-                                  (length view) (S retry) (PFailRel t) (OReq h (task_peer ts t) :: log)) end.
+        change s with (solo_state h arr (upd (zeros n) t (nth t (zeros n) 0 + 1)%Z) own
+                                  (S retry) (PFailRel t) (OReq h (task_peer ts t) :: log)) end.
       rewrite step_release_fail. rewrite release_zeros by exact Ht.
       rewrite run_g_unfold. cbn [solo_state s_gs nth next_event g_pc].
       match goal with |- context [step c ts ?s (Remove 0)] =>
-        change s with (solo_state h (view ++ rest) (zeros n) (upd idx t i)
-                                  (length view) (S retry) (PRemove t) (OReq h (task_peer ts t) :: log)) end.
-      rewrite step_remove. rewrite nth_upd_same by (rewrite Hidx; exact Ht).
-      assert (Hlt : (length view <? i + 1) = false) by (apply Nat.ltb_ge; lia). rewrite Hlt.
-      rewrite remove_shared_app by exact Hi.
-      assert (Hl' : length view - 1 = length (remove_nth i view)) by (rewrite remove_nth_length; auto).
-      set (R := skipn (length view - 1) (view ++ rest)). rewrite Hl'.
+        change s with (solo_state h arr (zeros n) own (S retry) (PRemove t) (OReq h (task_peer ts t) :: log)) end.
+      rewrite step_remove. fold view.
       assert (Hr' : S retry <= max_retry) by (apply Nat.ltb_ge in Hr; exact Hr). unfold max_retry in Hr'.
-      destruct (IH f (remove_nth i view) R (upd idx t i) (S retry)
-                   (OReq h (task_peer ts t) :: log))
-        as [arr' [tn' [idx' [vlen' [retry' Hrun]]]]].
-      * apply forall_remove_nth. exact Hview.
-      * apply forallb_remove_nth. exact Hsf.
-      * rewrite upd_length. exact Hidx.
+      destruct (IH f arr (Some (without t view)) (S retry) (OReq h (task_peer ts t) :: log))
+        as [tn' [own' [retry' Hrun]]].
+      * cbn [view_of]. apply forall_without. exact Hview.
       * lia.
       * lia.
-      * cbn zeta in Hrun. rewrite Hrun. cbn [fst snd rev]. rewrite <- app_assoc. cbn [app].
+      * cbn zeta in Hrun. cbn [view_of] in Hrun. rewrite Hrun. cbn [fst snd rev]. rewrite <- app_assoc. cbn [app].
         repeat eexists.
   - rewrite run_g_unfold. cbn [solo_state s_gs nth next_event g_pc].
     match goal with |- context [step c ts ?s (Sleep 0)] =>
-      change s with (solo_state h (view ++ rest) (zeros n) idx (length view) (S retry) PSleep log) end.
+      change s with (solo_state h arr (zeros n) own (S retry) PSleep log) end.
     rewrite step_sleep.
     assert (Hr' : S retry <= max_retry) by (apply Nat.ltb_ge in Hr; exact Hr). unfold max_retry in Hr'.
-    destruct (IH (S (S f)) view rest idx (S retry) log Hview Hsf Hidx ltac:(lia) ltac:(lia))
-      as [arr' [tn' [idx' [vlen' [retry' Hrun]]]]].
-    cbn zeta in Hrun. rewrite Hrun. repeat eexists.
+    destruct (IH (S (S f)) arr own (S retry) log Hview ltac:(lia) ltac:(lia))
+      as [tn' [own' [retry' Hrun]]].
+    cbn zeta in Hrun. fold view in Hrun. rewrite Hrun. repeat eexists.
 Qed.
